@@ -67,6 +67,15 @@ PROPS = {
         min_nontrivial={"quick": 50, "thorough": 1000},
         reject_ok=True,
     ),
+    "C06": dict(
+        anchors=[("src/data/loading.rs", r"fn build_batch\("), ("src/data/loading.rs", r"fn batch_from\("), ("src/data/loading.rs", r"enum BatchLimit \{"), ("src/data/loading.rs", r"impl BatchLimit \{"), ("src/utils.rs", r"pub fn find_subsequences_of_max_size_k<")],
+        rule="item vectors (unique id, size) of length 0-40 with sizes from {0,1,2,3,5,8,13,40} (all-zero, all-equal and all-oversized streams explicit) x sort x shuffle x prefetch 0-4 x limit 0-16 x {BatchSize, PaddedItemSize} x seeds; the request carries the batch sequence the real Batched iterator returned, the model replays it step by step (stepAllowed) and must end in the finished state; thorough adds all size vectors of length <= 5 with sizes <= 3 x all 8 flag combinations x limits {0,1,2,3,6} x prefetch {0,2}",
+        exhaustive={"thorough": "all size vectors of length <= 5 over sizes 0..3 (1365) x sort x shuffle x limit type x limits {0,1,2,3,6} x prefetch {0,2}"},
+        trusted=["ChaCha8 / rand (random_range, shuffle): random decisions are not modelled; the model is the relation 'this batch may be returned from this state' and every theorem holds for all allowed sequences"],
+        claim="Theorems for every item sequence (distinct items), every configuration and EVERY sequence of allowed steps (hence every seed): step_spec / run_spec (batches non-empty; every batch with more than one item satisfies the limit; batches + buffer + upstream are a permutation of the input), batches_partition (complete iteration: every item in exactly one batch), step_decreases (termination: at most |items| batches), plain_step (without sort/shuffle: exactly one batch is allowed, concatenation = input order, greedy-maximal), batchFrom_spec, findSubseq_sound (every window returned by find_subsequences_of_max_size_k fits the limit). Correspondence: every observed batch of the real iterator must be allowed by the model from the model's state (exact equality in the deterministic modes) and the final state must be finished; oracle: partition / non-empty / limit / determinism in the seed (two runs) / order and greediness in plain mode.",
+        note="Determinism in the seed is checked by running twice (the model is a relation, not a function of the seed). Progress (some batch is always allowed while items remain) is not yet a theorem; termination of the implementation is enforced by the harness watchdog.",
+        min_nontrivial={"quick": 500, "thorough": 5000},
+    ),
     "C10": dict(
         anchors=[("src/whitespace.rs", r"pub fn operations\("), ("src/whitespace.rs", r"pub fn repair\(")],
         rule="pairs built from one non-whitespace skeleton with independent spacings (70%), non-clean / unequal pairs (30%), arbitrary operation sequences for repair; both modes; thorough adds all pairs of strings of length <= 4 over {a,b,space,U+3000}",
